@@ -805,3 +805,7 @@ _CENTROID_VEC = ("        projection = self._normalized_projection()\n        tr
                  "        centroids = np.average(points[triangles, :-1], axis=1)\n        weights = {w} / 2\n")
 V("centroid vectorised over the fan, weighted by absolute areas", "C17", SHAPES, _CENTROID_OLD, _CENTROID_VEC.format(w="np.abs(det(projection[triangles]))"), "E19.poly", "Polygon.centroid")
 V("twin: centroid vectorised over the fan with signed areas", "C17", SHAPES, _CENTROID_OLD, _CENTROID_VEC.format(w="det(projection[triangles])"), "silent")
+V("Simplex.volume: Cayley-Menger normalisation with 2**n", "C17", SHAPES, "(math.factorial(n - 1) ** 2 * 2 ** (n - 1))", "(math.factorial(n - 1) ** 2 * 2**n)", "E19.simplex", "Simplex.volume")
+V("Simplex.volume: Cayley-Menger matrix without the border of ones in the last row", "C17", SHAPES, "        m[-1, :-1] = 1\n        m[:-1, -1] = 1\n", "        m[:-1, -1] = 1\n", "E19.simplex", "Simplex.volume")
+V("Simplex.volume: determinant branch divided by n!", "C17", SHAPES, "            return 1 / math.factorial(n - 1) * abs(det(points))", "            return 1 / math.factorial(n) * abs(det(points))", "E19.simplex", "Simplex.volume")
+V("twin: Simplex.volume with the squared distances summed by einsum-free dot products", "C17", SHAPES, "        distances = np.sum(distances**2, axis=1)", "        distances = np.sum(distances * distances, axis=1)", "silent")
